@@ -56,7 +56,30 @@ def join_retrigger():
     return worst
 
 
-SUBCHECKS = {'join-retrigger': join_retrigger}
+def withitems_subwf_pause():
+    """with-items over sub-workflows; an operator pauses one child (which
+    pauses parent and siblings), resumes another child only, later the
+    root: the run does not end like the unpaused run."""
+    import json
+    import os
+    from mv import runner
+    from mv.props import c10
+    path = os.path.join(runner.VERIF, 'known',
+                        'C10-withitems-subwf-pause.json')
+    with open(path) as f:
+        d = json.load(f)
+    viol = c10.check_case(d['case'])
+    if viol:
+        return ('withitems-subwf-pause: with-items task over sub-workflows, '
+                'operator pauses/resumes individual child executions while '
+                'siblings are paused through the parent: %s (%s)' % (
+                    viol[0]['kind'],
+                    str(viol[0]['detail'])[:200]))
+    return None
+
+
+SUBCHECKS = {'join-retrigger': join_retrigger,
+             'withitems-subwf-pause': withitems_subwf_pause}
 
 
 def run_known(prop):
